@@ -7,7 +7,7 @@ harness/features renders every case, compiles it with the stable compiler, build
 protodesc.NewFile on the compiled proto and compares every attribute three ways (linker vs spec, runtime vs spec, linker
 vs runtime).  File values that break exactly one protoc rule on resolved features are exported too (flagged): the
 compiler may reject them, but if it accepts one the property must hold for it."""
-import json, os, time, collections, hashlib
+import json, os, time, collections, hashlib, threading, concurrent.futures
 import vf
 
 CFG = """SPECIFICATION Spec
@@ -32,7 +32,7 @@ ALLTYPES = '"int32", "string", "bytes", "enumE", "enumNE", "message", "group"'
 RUNS = {
     "quick": [
         dict(name="exh1", maxfields=1, maxweight=1, minfields=1, minweight=0, syn=ALLSYN, scopes=ALLSCOPES, sim=None),
-        dict(name="sim", maxfields=3, maxweight=9, minfields=2, minweight=3, syn=ALLSYN, scopes=ALLSCOPES, sim=8, depth=12),
+        dict(name="sim", maxfields=3, maxweight=9, minfields=2, minweight=2, syn=ALLSYN, scopes=ALLSCOPES, sim=10, depth=12),
     ],
     "thorough": [
         dict(name="exh1", maxfields=1, maxweight=1, minfields=1, minweight=0, syn=ALLSYN, scopes=ALLSCOPES, sim=None, coverage=True),
@@ -176,44 +176,68 @@ def run(pid, tier, replay=None):
 
     seen = set()
     demo_file = None
-    for r in RUNS[tier]:
+    lock = threading.Lock()
+    counters = {"nontrivial": 0}
+
+    def tlc_run(r):
+        # each TLC run gets its own directory (vf.tlc copies the spec files there)
+        rwd = os.path.join(wd, r["name"])
+        os.makedirs(rwd, exist_ok=True)
         cfg = "MCFeatures_%s.cfg" % r["name"]
-        with open(os.path.join(wd, cfg), "w") as fh:
+        with open(os.path.join(rwd, cfg), "w") as fh:
             fh.write(CFG % dict({"types": ALLTYPES}, **r))
         casefile = os.path.join(wd, "cases_%s.jsonl" % r["name"])
-        n = 0
+        cnt = [0]
         with open(casefile, "w") as cf:
             def sink(o):
-                nonlocal n, nontrivial
                 cid = case_id(o)
-                if cid in seen:
-                    return
-                seen.add(cid)
-                cf.write(json.dumps(o, separators=(",", ":")) + "\n")
-                n += 1
-                if o["weight"] >= 1:
-                    nontrivial += 1
-                flags.update(coverage_flags(o))
-                if len(samples) < 3 and o["weight"] >= 1 and o["syntax"] == "editions" and not o["breaks"] \
-                        and (len(samples) == 0 or o["fields"][0]["src"]["type"] != samples[-1]["fields"][0]["src"]["type"]):
-                    samples.append(o)
+                fl = coverage_flags(o)
+                with lock:
+                    if cid in seen:
+                        return
+                    seen.add(cid)
+                    cf.write(json.dumps(o, separators=(",", ":")) + "\n")
+                    cnt[0] += 1
+                    if o["weight"] >= 1:
+                        counters["nontrivial"] += 1
+                    flags.update(fl)
+                    if len(samples) < 3 and o["weight"] >= 1 and o["syntax"] == "editions" and not o["breaks"] \
+                            and (len(samples) == 0 or o["fields"][0]["src"]["type"] != samples[-1]["fields"][0]["src"]["type"]):
+                        samples.append(o)
             sim = r.get("sim")
-            res = vf.tlc("MCFeatures", cfg, wd, workers=1 if sim else 6, simulate=sim, depth=r.get("depth"),
-                         tseed=vf.seed() if sim else None, case_sink=sink, timeout=2400, coverage=bool(r.get("coverage")))
-        if res.violated:
-            raise vf.MachineryError("spec-level check failed in MCFeatures (%s): %s" % (r["name"], res.violated))
-        if r.get("coverage") and res.coverage_zero:
-            raise vf.MachineryError("vacuous actions in MCFeatures: %s" % res.coverage_zero)
-        states += res.distinct or n
-        trans += res.generated or n
-        ncases += n
-        bounds.append({"run": r["name"], "max_fields": r["maxfields"], "max_weight": r["maxweight"], "syntaxes": r["syn"],
-                       "scopes": r["scopes"], "types": r.get("types", "all"), "simulate": sim, "cases": n, "tlc_wall_s": round(res.wall, 1)})
-        if n == 0:
-            raise vf.MachineryError("run %s exported no case" % r["name"])
-        if demo_file is None:
-            demo_file = casefile
-        judge(run_driver_on(binary, casefile, verdict, stats, None), casefile)
+            res = vf.tlc("MCFeatures", cfg, rwd, workers=1 if sim else (4 if tier == "quick" else 6), simulate=sim,
+                         depth=r.get("depth"), tseed=vf.seed() if sim else None, case_sink=sink, timeout=2400,
+                         coverage=bool(r.get("coverage")))
+        return casefile, res, cnt[0]
+
+    # quick: the (two) TLC runs go in parallel; thorough: TLC runs one after the other (<= 6 workers) while the driver
+    # replays the cases of the previous run
+    pool = concurrent.futures.ThreadPoolExecutor(max_workers=2 if tier == "quick" else 1)
+    futures = [(r, pool.submit(tlc_run, r)) for r in RUNS[tier]]
+    try:
+        for r, fut in futures:
+            casefile, res, n = fut.result()
+            sim = r.get("sim")
+            if res.violated:
+                raise vf.MachineryError("spec-level check failed in MCFeatures (%s): %s" % (r["name"], res.violated))
+            if r.get("coverage") and res.coverage_zero:
+                raise vf.MachineryError("vacuous actions in MCFeatures: %s" % res.coverage_zero)
+            states += res.distinct or n
+            trans += res.generated or n
+            ncases += n
+            bounds.append({"run": r["name"], "max_fields": r["maxfields"], "max_weight": r["maxweight"], "syntaxes": r["syn"],
+                           "scopes": r["scopes"], "types": r.get("types", "all"), "simulate": sim, "cases": n,
+                           "tlc_wall_s": round(res.wall, 1)})
+            if n == 0:
+                raise vf.MachineryError("run %s exported no case" % r["name"])
+            if demo_file is None:
+                demo_file = casefile
+            judge(run_driver_on(binary, casefile, verdict, stats, None), casefile)
+    finally:
+        for _r, fut in futures:
+            fut.cancel()
+        pool.shutdown(wait=True)
+    nontrivial = counters["nontrivial"]
 
     if harness:
         m = harness[0]
@@ -241,7 +265,7 @@ def run(pid, tier, replay=None):
     demo = os.path.join(wd, "demo.jsonl")
     lines = open(demo_file).read().splitlines()
     rng = vf.rng()
-    pick = vf.sample(rng, [l for l in lines if '"breaks":[]' in l], 150)
+    pick = vf.sample(rng, [l for l in lines if '"breaks":[]' in l], 100)
     with open(demo, "w") as fh:
         fh.write("\n".join(pick) + "\n")
     dstats = collections.Counter()
